@@ -555,6 +555,12 @@ func (pc *PeerConnection) SetConfiguration(configuration Configuration) error { 
 		return &rtcerr.InvalidStateError{Err: ErrConnectionClosed}
 	}
 
+	// LocalDescription takes pc.mu itself, so it is read before the lock is taken.
+	hasLocalDescription := configuration.ICECandidatePoolSize != 0 && pc.LocalDescription() != nil
+
+	pc.mu.Lock()
+	defer pc.mu.Unlock()
+
 	// Not in W3C spec, but we validate PeerIdentity cannot be modified.
 	if configuration.PeerIdentity != "" {
 		if configuration.PeerIdentity != pc.configuration.PeerIdentity {
@@ -596,7 +602,7 @@ func (pc *PeerConnection) SetConfiguration(configuration Configuration) error { 
 	// https://www.w3.org/TR/webrtc/#set-the-configuration (step #3.6)
 	if configuration.ICECandidatePoolSize != 0 {
 		if pc.configuration.ICECandidatePoolSize != configuration.ICECandidatePoolSize &&
-			pc.LocalDescription() != nil {
+			hasLocalDescription {
 			return &rtcerr.InvalidModificationError{Err: ErrModifyingICECandidatePoolSize}
 		}
 
@@ -652,6 +658,9 @@ func (pc *PeerConnection) SetConfiguration(configuration Configuration) error { 
 // has been called with Configuration passed as its only argument.
 // https://www.w3.org/TR/webrtc/#dom-rtcpeerconnection-getconfiguration
 func (pc *PeerConnection) GetConfiguration() Configuration {
+	pc.mu.RLock()
+	defer pc.mu.RUnlock()
+
 	configuration := pc.configuration
 	configuration.ICEServers = copyICEServers(pc.configuration.ICEServers)
 	configuration.Certificates = copyCertificates(pc.configuration.Certificates)
